@@ -42,8 +42,8 @@ def canon(bpj):
     for n, e in ents.items():
         if e["name"] in bpexport.POLES:
             continue
-        cfg[n] = json.dumps({"name": e["name"], "cb": e.get("control_behavior"),
-                             "desc": e.get("player_description")}, sort_keys=True)
+        # descriptions are left out: they embed the source name (<string> / file path)
+        cfg[n] = json.dumps({"name": e["name"], "cb": e.get("control_behavior")}, sort_keys=True)
     part = bpexport.partition_actual(bpj)
     classes = sorted(sorted((cfg[en], c) for en, c in g if en in cfg) for g in part)
     return json.dumps({"entities": sorted(cfg.values()), "classes": classes}, sort_keys=True)
